@@ -271,6 +271,8 @@ def r05j(ctx, rep, rule="R05j"):
         for fm in forms:
             if isinstance(fm, list) and len(fm) >= 3 and fm[0] == "define" and isinstance(fm[1], list) and fm[1] and fm[1][0] == name:
                 d = fm
+        if d is None and name == "map1":
+            continue      # a helper: checked where it is defined, inside map / for-each or at top level
         if d is None:
             rep.anchor_lost(rule, "definition of %s in prelude.scm" % name)
             continue
